@@ -16,6 +16,7 @@ Proof. revert t. induction a as [|e a IH]; intros t; cbn; [reflexivity|apply IH]
 
 Ltac dstate s := destruct s as [sb0 sp0 rb0 rp0 rbo0 rpo0 fl0 ic0].
 Ltac psimp := cbn [sb sp rb rp rbo rpo flag ic fst snd].
+Ltac tsimp := cbn [pk in_kex lki alive kexinits sb sp rb rp rbo rpo flag ic fst snd].
 
 (* ---- trigger ------------------------------------------------------------------------------ *)
 Lemma send_trigger c s len :
@@ -112,8 +113,23 @@ Proof.
   - congruence.
 Qed.
 
+Lemma trigger_exact c s len :
+  flag s = false ->
+  (flag (send_op c s len) = true <-> RP c <= sp s + 1 \/ RB c <= sb s + len) /\
+  (flag (fst (recv_op c s len)) = true <-> RP c <= rp s + 1 \/ RB c <= rb s + len) /\
+  snd (recv_op c s len) = c_ok /\
+  flag (set_out s) = false /\ flag (set_in s) = false.
+Proof.
+  intros F. split; [exact (send_trigger_iff c s len F)|].
+  destruct (recv_trigger_iff c s len F) as [A B]. split; [exact A|]. split; [exact B|].
+  split.
+  - destruct (flag (set_out s)) eqn:E; [|reflexivity].
+    exact (match flag_only_by_crossing c s SetOut F E with end).
+  - destruct (flag (set_in s)) eqn:E; [|reflexivity].
+    exact (match flag_only_by_crossing c s SetIn F E with end).
+Qed.
+
 (* ---- init_count stays in {0,1,2} ------------------------------------------------------------ *)
-Definition ic_ok (s : pstate) : Prop := ic s = 0 \/ ic s = 1 \/ ic s = 2.
 
 Lemma step_ic_ok c s o : ic_ok s -> ic_ok (fst (step c s o)).
 Proof.
@@ -135,8 +151,6 @@ Lemma reach_ic_ok c ops : ic_ok (run c init ops).
 Proof. apply run_ic_ok. left. reflexivity. Qed.
 
 (* ---- reset ---------------------------------------------------------------------------------- *)
-Definition counters_zero (s : pstate) : Prop :=
-  sb s = 0 /\ sp s = 0 /\ rb s = 0 /\ rp s = 0 /\ rbo s = 0 /\ rpo s = 0.
 
 Lemma reset_adjacent c ops :
   let s := run c init ops in
@@ -263,13 +277,11 @@ Proof.
   pose proof (trigger_once c s) as O.
   destruct o; try contradiction; cbn [step fst] in *.
   - destruct (O len) as (O1 & _ & _). destruct (O1 F T) as [Z1 Z2].
-    rewrite drop_iff; try assumption; try lia.
-    + rewrite Z1, Z2. lia.
-    + dstate s. cbn in *. unfold send_op. cbn. destruct (_ && _); cbn; assumption.
+    rewrite drop_iff; [rewrite Z1, Z2; lia | assumption | | assumption | assumption | lia | lia].
+    dstate s. psimp. cbn [ic] in I. unfold send_op. psimp. destruct (_ && _); psimp; assumption.
   - destruct (O len) as (_ & O2 & _). destruct (O2 F T) as [Z1 Z2].
-    rewrite drop_iff; try assumption; try lia.
-    + rewrite Z1, Z2. lia.
-    + dstate s. cbn in *. subst. unfold recv_op. cbn. destruct (_ || _); cbn; assumption.
+    rewrite drop_iff; [rewrite Z1, Z2; lia | assumption | | assumption | assumption | lia | lia].
+    dstate s. cbn [ic flag] in I, F. subst. unfold recv_op. psimp. destruct (_ || _); psimp; assumption.
 Qed.
 
 (* ---- run loop: KEXINIT is sent ------------------------------------------------------------------ *)
@@ -285,7 +297,6 @@ Proof.
     destruct r; cbn [send_kex_init kexinits pk in_kex lki alive rd_len]; try reflexivity;
       match goal with |- context [recv_op ?c ?s ?l] => destruct (recv_op c s l) as [p2 code] end;
       destruct (code =? c_ssh); cbn; try reflexivity.
-    destruct (flag (set_out (send_op c p2 nlen))); reflexivity.
   - intros ->. unfold titer. cbn [alive negb pk in_kex]. rewrite F. cbn. split; reflexivity.
 Qed.
 
@@ -301,9 +312,9 @@ Proof.
   destruct e as [[| len | | |]|len]; try contradiction.
   - (* RData *)
     cbn [tstep] in *. unfold titer at 2. unfold titer in T. cbn [alive negb pk in_kex] in *.
-    rewrite F in *. cbn [andb] in *. cbn [rd_len] in *.
+    rewrite F in *. cbn [andb] in *. cbn [rd_len pk in_kex lki alive kexinits] in *.
     destruct (recv_trigger_iff c p len F) as [_ K].
-    destruct (recv_op c p len) as [p2 code] eqn:R. cbn [snd] in K. subst code.
+    destruct (recv_op c p len) as [p2 code] eqn:R. rewrite ?R in K, T. cbn [snd] in K. subst code.
     change (c_ok =? c_ssh) with false in *. cbn iota in *. cbn [pk lki in_kex kexinits] in *.
     apply (kexinit_sent c klen (mkT p2 false lk true kx) r); cbn; auto.
   - cbn [tstep tsend alive] in *. cbn [pk] in T.
@@ -311,12 +322,6 @@ Proof.
 Qed.
 
 (* ---- a peer that never re-keys is dropped by the transport ------------------------------------------ *)
-Definition is_plain (e : tev) : bool :=
-  match e with TSend l => 0 <=? l | TIter RIdle => true | TIter (RData l) => 0 <=? l | _ => false end.
-Fixpoint ndata (es : list tev) : Z :=
-  match es with [] => 0 | TIter (RData _) :: r => 1 + ndata r | _ :: r => ndata r end.
-Fixpoint bdata (es : list tev) : Z :=
-  match es with [] => 0 | TIter (RData l) :: r => l + bdata r | _ :: r => bdata r end.
 
 Lemma ndata_nonneg es : 0 <= ndata es.
 Proof. induction es as [|[[]|]]; cbn [ndata]; lia. Qed.
@@ -367,7 +372,8 @@ Proof.
         - change (c_ssh =? c_ssh) with true. cbn iota. rewrite trun_dead by reflexivity.
           apply orb_true_iff in E. split; [intros _; lia|reflexivity].
         - change (c_ok =? c_ssh) with false. cbn iota. apply orb_false_iff in E as [E1 E2].
-          rewrite IH; cbn; auto; lia. }
+          rewrite IH by (cbn [alive pk flag ic rpo rbo]; first [assumption|reflexivity|lia]).
+          cbn [pk rpo rbo]. lia. }
       destruct ik; cbn [negb].
       * apply Hrecv.
       * unfold send_kex_init, send_op. cbn [pk flag negb andb]. rewrite andb_false_r.
@@ -379,7 +385,6 @@ Proof.
 Qed.
 
 (* ---- any number of crossings -------------------------------------------------------------------------- *)
-Definition tfresh (k : Z) : tstate := mkT init false false true k.
 
 Definition shiftk (j : Z) (t : tstate) : tstate :=
   mkT (pk t) (in_kex t) (lki t) (alive t) (kexinits t + j).
@@ -389,14 +394,13 @@ Proof.
   destruct t as [p ik lk al kx]. unfold shiftk. cbn [pk in_kex lki alive kexinits].
   destruct e as [r|len]; cbn [tstep].
   - unfold titer. cbn [alive pk in_kex]. destruct al; cbn [negb]; [|reflexivity].
-    destruct (flag p && negb ik); cbn [send_kex_init pk in_kex lki alive kexinits].
-    + destruct r; cbn [rd_len]; try (f_equal; lia);
-        match goal with |- context [recv_op ?c ?s ?l] => destruct (recv_op c s l) as [p2 code] end;
-        destruct (code =? c_ssh); cbn; try (f_equal; lia).
-    + destruct r; cbn [rd_len]; try reflexivity;
-        match goal with |- context [recv_op ?c ?s ?l] => destruct (recv_op c s l) as [p2 code] end;
-        destruct (code =? c_ssh); cbn; try reflexivity.
-      destruct lk; cbn; try reflexivity. f_equal; lia.
+    destruct (flag p && negb ik); cbn [send_kex_init pk in_kex lki alive kexinits];
+      destruct r; cbn [rd_len];
+      try match goal with |- context [recv_op ?c ?s ?l] => destruct (recv_op c s l) as [p2 code] end;
+      try match goal with |- context [if ?b =? c_ssh then _ else _] => destruct (b =? c_ssh) end;
+      cbn [pk in_kex lki alive kexinits send_kex_init];
+      try destruct lk; unfold send_kex_init; cbn [pk in_kex lki alive kexinits];
+      try reflexivity; f_equal; lia.
   - unfold tsend. cbn. destruct al; reflexivity.
 Qed.
 
@@ -417,21 +421,33 @@ Proof.
     destruct al; [|left; destruct e; cbn [tstep]; [unfold titer|unfold tsend]; reflexivity].
     dstate p. cbn [ic flag] in *. subst ic0.
     destruct e as [[| len | | |]|len]; cbn [is_plain] in P; try discriminate; cbn [tstep].
-    + unfold titer. cbn [alive negb pk in_kex flag].
-      destruct fl0, ik; cbn [andb negb]; try (right; cbn; repeat split; auto; fail).
-      * right. unfold send_kex_init, send_op. cbn. repeat split; auto. subst. lia.
-      * specialize (K eq_refl). discriminate.
-    + unfold titer. cbn [alive negb pk in_kex flag rd_len].
+    + (* idle iteration *)
+      unfold titer. cbn [alive negb pk in_kex flag].
       destruct fl0, ik; cbn [andb negb]; try (specialize (K eq_refl); discriminate).
-      * unfold recv_op. cbn [flag]. destruct (_ || _); cbn; [left; reflexivity|right].
-        cbn. repeat split; auto.
+      * right. cbn [alive pk in_kex lki kexinits ic flag]. repeat split; auto.
+      * right. unfold send_kex_init, send_op. cbn [pk flag negb andb]. rewrite andb_false_r.
+        cbn [alive pk in_kex lki kexinits ic flag]. repeat split; auto. lia.
+      * right. cbn [alive pk in_kex lki kexinits ic flag]. repeat split; auto.
+    + (* data packet *)
+      unfold titer. cbn [alive negb pk in_kex flag rd_len].
+      destruct fl0, ik; cbn [andb negb]; try (specialize (K eq_refl); discriminate).
+      * unfold recv_op. tsimp. destruct (_ || _); change (c_ssh =? c_ssh) with true;
+          change (c_ok =? c_ssh) with false; cbn iota; [left; reflexivity|right].
+        cbn [alive pk in_kex lki kexinits ic flag]. repeat split; auto.
       * unfold send_kex_init, send_op, recv_op. cbn [pk flag negb andb]. rewrite andb_false_r.
-        cbn [flag sb sp rb rp rbo rpo ic]. destruct (_ || _); cbn; [left; reflexivity|right].
-        repeat split; auto. subst. lia.
-      * unfold recv_op. cbn [flag]. destruct (_ || _); cbn; right; repeat split; auto; discriminate.
-    + unfold tsend. cbn [alive pk]. right. unfold send_op. cbn [flag sb sp rb rp rbo rpo ic].
-      destruct (_ && _) eqn:E; cbn; repeat split; auto.
-      intros ->. specialize (K eq_refl). subst. cbn in E. rewrite andb_false_r in E. discriminate.
+        cbn [flag sb sp rb rp rbo rpo ic in_kex lki alive kexinits].
+        destruct (_ || _); change (c_ssh =? c_ssh) with true;
+          change (c_ok =? c_ssh) with false; cbn iota; [left; reflexivity|right].
+        cbn [alive pk in_kex lki kexinits ic flag]. repeat split; auto. lia.
+      * unfold recv_op. tsimp. destruct (_ || _); change (c_ok =? c_ssh) with false; cbn iota;
+          right; cbn [alive pk in_kex lki kexinits ic flag]; repeat split; auto; discriminate.
+    + (* send by another thread *)
+      unfold tsend. cbn [alive pk]. right. unfold send_op. cbn [flag sb sp rb rp rbo rpo ic].
+      destruct fl0, ik; cbn [negb andb]; try (specialize (K eq_refl); discriminate).
+      * rewrite andb_false_r. cbn [alive pk in_kex lki kexinits ic flag]. repeat split; auto.
+      * rewrite andb_false_r. cbn [alive pk in_kex lki kexinits ic flag]. repeat split; auto.
+      * rewrite andb_true_r. destruct (_ || _); cbn [alive pk in_kex lki kexinits ic flag];
+          repeat split; auto; discriminate.
 Qed.
 
 Lemma quiet_run c klen k es : forall t,
@@ -441,17 +457,49 @@ Proof.
   cbn [forallb] in P. apply andb_true_iff in P as [P1 P2]. apply IH; [exact P2|]. apply quiet_step; assumption.
 Qed.
 
-(* one round: traffic that crosses a threshold (and stays within the allowance), then an iteration
-   (idle or not is irrelevant: we use an idle one), then the peer's three kex messages *)
-Definition round_ok (c : cfg) (klen : Z) (x : list tev * (Z * Z * Z * Z)) : Prop :=
-  let '(tr, (a, b, n, d)) := x in
-  forallb is_plain tr = true /\
-  let t := trun c klen (tfresh 0) tr in
-  alive t = true /\ flag (pk t) = true /\
-  rpo (pk t) + 3 < OP c /\ rbo (pk t) + (a + b + d) < OB c /\ 0 <= a /\ 0 <= b /\ 0 <= d.
 
-Definition round_events (x : list tev * (Z * Z * Z * Z)) : list tev :=
-  let '(tr, (a, b, n, d)) := x in tr ++ TIter RIdle :: rekey_round a b n d.
+(* the three iterations of a peer-answered exchange, with our KEXINIT already out *)
+Lemma iter_peer_kexinit c klen sb0 sp0 rb0 rp0 rbo0 rpo0 i kx a :
+  (OP c <=? rpo0 + 1) || (OB c <=? rbo0 + a) = false ->
+  titer c klen (mkT (mkP sb0 sp0 rb0 rp0 rbo0 rpo0 true i) true true true kx) (RKexInit a) =
+  mkT (mkP sb0 sp0 (rb0 + a) (rp0 + 1) (rbo0 + a) (rpo0 + 1) true i) true true true kx.
+Proof.
+  intros E. unfold titer. tsimp. cbn [negb andb rd_len]. unfold recv_op. tsimp. rewrite E.
+  change (c_ok =? c_ssh) with false. cbn iota. tsimp. reflexivity.
+Qed.
+
+Lemma iter_peer_kexdone c klen sb0 sp0 rb0 rp0 rbo0 rpo0 kx b n :
+  (OP c <=? rpo0 + 1) || (OB c <=? rbo0 + b) = false ->
+  titer c klen (mkT (mkP sb0 sp0 rb0 rp0 rbo0 rpo0 true 0) true true true kx) (RKexDone b n) =
+  mkT (mkP 0 0 (rb0 + b) (rp0 + 1) (rbo0 + b) (rpo0 + 1) true 1) true true true kx.
+Proof.
+  intros E. unfold titer. tsimp. cbn [negb andb rd_len]. unfold recv_op. tsimp. rewrite E.
+  change (c_ok =? c_ssh) with false. cbn iota. tsimp.
+  unfold send_op. tsimp. cbn [negb]. rewrite andb_false_r. tsimp.
+  unfold set_out, both_done. tsimp. reflexivity.
+Qed.
+
+Lemma iter_peer_newkeys c klen sb0 sp0 rb0 rp0 rbo0 rpo0 kx d :
+  (OP c <=? rpo0 + 1) || (OB c <=? rbo0 + d) = false ->
+  titer c klen (mkT (mkP sb0 sp0 rb0 rp0 rbo0 rpo0 true 1) true true true kx) (RNewKeys d) =
+  mkT (mkP sb0 sp0 0 0 0 0 false 0) false false true kx.
+Proof.
+  intros E. unfold titer. tsimp. cbn [negb andb rd_len]. unfold recv_op. tsimp. rewrite E.
+  change (c_ok =? c_ssh) with false. cbn iota. tsimp.
+  unfold set_in, both_done. tsimp. reflexivity.
+Qed.
+
+Lemma iter_idle_sends c klen sb0 sp0 rb0 rp0 rbo0 rpo0 i kx lk :
+  titer c klen (mkT (mkP sb0 sp0 rb0 rp0 rbo0 rpo0 true i) false lk true kx) RIdle =
+  mkT (mkP (sb0 + klen) (sp0 + 1) rb0 rp0 rbo0 rpo0 true i) true true true (kx + 1).
+Proof.
+  unfold titer. tsimp. cbn [negb andb]. unfold send_kex_init, send_op. tsimp. cbn [negb].
+  rewrite andb_false_r. reflexivity.
+Qed.
+
+Lemma iter_idle_nothing c klen p kx lk :
+  titer c klen (mkT p true lk true kx) RIdle = mkT p true lk true kx.
+Proof. unfold titer. tsimp. cbn [negb]. rewrite andb_false_r. reflexivity. Qed.
 
 Lemma one_round c klen x k :
   round_ok c klen x -> trun c klen (tfresh k) (round_events x) = tfresh (k + 1).
@@ -460,8 +508,9 @@ Proof.
   intros (PL & A & F & Hp & Hb & Ha & Hbb & Hd).
   rewrite trun_app.
   change (tfresh k) with (shiftk k (tfresh 0)) at 1.
-  replace (tfresh (k + 1)) with (shiftk k (tfresh 1)) by (unfold shiftk, tfresh; cbn; f_equal; lia).
-  rewrite trun_shift. rewrite <- trun_shift. f_equal.
+  replace (tfresh (k + 1)) with (shiftk k (tfresh 1))
+    by (unfold shiftk, tfresh; cbn [pk in_kex lki alive kexinits]; f_equal; lia).
+  rewrite !trun_shift. f_equal.
   pose proof (quiet_run c klen 0 tr (tfresh 0) PL) as Q.
   assert (Q0 : quiet_inv 0 (tfresh 0)) by (right; cbn; repeat split; auto; discriminate).
   specialize (Q Q0). clear Q0.
@@ -469,46 +518,17 @@ Proof.
   destruct Q as [D|(I & L & K & X)]; [discriminate|].
   cbn [pk in_kex lki kexinits] in *. subst lk.
   dstate p. cbn [flag ic rpo rbo] in *. subst fl0 ic0.
-  (* the three comparisons of the overflow check are all false *)
-  assert (E1 : forall x, 0 <= x -> x <= a -> (OP c <=? rpo0 + 1) || (OB c <=? rbo0 + x) = false)
-    by (intros; apply orb_false_iff; lia).
-  unfold tfresh, init.
+  assert (E1 : (OP c <=? rpo0 + 1) || (OB c <=? rbo0 + a) = false) by (apply orb_false_iff; lia).
+  assert (E2 : (OP c <=? rpo0 + 1 + 1) || (OB c <=? rbo0 + a + b) = false) by (apply orb_false_iff; lia).
+  assert (E3 : (OP c <=? rpo0 + 1 + 1 + 1) || (OB c <=? rbo0 + a + b + d) = false) by (apply orb_false_iff; lia).
+  unfold rekey_round. cbn [trun tstep].
   destruct ik.
-  - (* KEXINIT already sent during the traffic *)
-    cbn [trun tstep rekey_round]. unfold titer. cbn [alive negb pk in_kex flag andb rd_len].
-    unfold recv_op at 1. cbn [flag rb rp rbo rpo sb sp ic].
-    replace ((OP c <=? rpo0 + 1) || (OB c <=? rbo0 + a)) with false by (symmetry; apply orb_false_iff; lia).
-    change (c_ok =? c_ssh) with false. cbn iota. cbn [lki pk in_kex alive kexinits negb flag andb].
-    unfold recv_op at 1. cbn [flag rb rp rbo rpo sb sp ic].
-    replace ((OP c <=? rpo0 + 1 + 1) || (OB c <=? rbo0 + a + b)) with false by (symmetry; apply orb_false_iff; lia).
-    change (c_ok =? c_ssh) with false. cbn iota. cbn [lki pk in_kex alive kexinits negb flag andb].
-    unfold send_op at 1. cbn [flag negb andb]. rewrite andb_false_r. cbn [sb sp rb rp rbo rpo flag ic].
-    unfold set_out at 1 2 3. unfold both_done. cbn [ic flag sb sp rb rp rbo rpo Z.lor Z.eqb Pos.eqb].
-    cbn [pk in_kex lki alive kexinits flag negb andb].
-    unfold recv_op. cbn [flag rb rp rbo rpo sb sp ic].
-    replace ((OP c <=? rpo0 + 1 + 1 + 1) || (OB c <=? rbo0 + a + b + d)) with false
-      by (symmetry; apply orb_false_iff; lia).
-    change (c_ok =? c_ssh) with false. cbn iota. cbn [pk in_kex lki alive kexinits].
-    unfold set_in, both_done. cbn. f_equal. specialize (K eq_refl). lia.
-  - (* the idle iteration sends it *)
-    cbn [trun tstep rekey_round]. unfold titer at 1. cbn [alive negb pk in_kex flag andb].
-    unfold send_kex_init, send_op. cbn [pk flag negb andb]. rewrite andb_false_r.
-    cbn [sb sp rb rp rbo rpo flag ic alive kexinits in_kex lki].
-    unfold titer. cbn [alive negb pk in_kex flag andb rd_len].
-    unfold recv_op at 1. cbn [flag rb rp rbo rpo sb sp ic].
-    replace ((OP c <=? rpo0 + 1) || (OB c <=? rbo0 + a)) with false by (symmetry; apply orb_false_iff; lia).
-    change (c_ok =? c_ssh) with false. cbn iota. cbn [lki pk in_kex alive kexinits negb flag andb].
-    unfold recv_op at 1. cbn [flag rb rp rbo rpo sb sp ic].
-    replace ((OP c <=? rpo0 + 1 + 1) || (OB c <=? rbo0 + a + b)) with false by (symmetry; apply orb_false_iff; lia).
-    change (c_ok =? c_ssh) with false. cbn iota. cbn [lki pk in_kex alive kexinits negb flag andb].
-    unfold send_op at 1. cbn [flag negb andb]. rewrite andb_false_r. cbn [sb sp rb rp rbo rpo flag ic].
-    unfold set_out at 1 2 3. unfold both_done. cbn [ic flag sb sp rb rp rbo rpo Z.lor Z.eqb Pos.eqb].
-    cbn [pk in_kex lki alive kexinits flag negb andb].
-    unfold recv_op. cbn [flag rb rp rbo rpo sb sp ic].
-    replace ((OP c <=? rpo0 + 1 + 1 + 1) || (OB c <=? rbo0 + a + b + d)) with false
-      by (symmetry; apply orb_false_iff; lia).
-    change (c_ok =? c_ssh) with false. cbn iota. cbn [pk in_kex lki alive kexinits].
-    unfold set_in, both_done. cbn. f_equal. lia.
+  - rewrite iter_idle_nothing.
+    rewrite iter_peer_kexinit by exact E1. rewrite iter_peer_kexdone by exact E2.
+    rewrite iter_peer_newkeys by exact E3. unfold tfresh, init. f_equal. lia.
+  - rewrite iter_idle_sends.
+    rewrite iter_peer_kexinit by exact E1. rewrite iter_peer_kexdone by exact E2.
+    rewrite iter_peer_newkeys by exact E3. unfold tfresh, init. f_equal. lia.
 Qed.
 
 Lemma repeat_rounds c klen rounds : forall k,
